@@ -211,6 +211,7 @@ type dirCase struct {
 	Files         []zipgen.Entry // regular files only, clean relative names, no collisions
 	EmptyDirs     []string
 	Shuffle       []int
+	Spelling      int `json:",omitempty"` // how the directory is named to CheckDir and CreateFromDir: 0 clean; 1 trailing separator; 2 "/./" inside; 3 doubled separator; 4 "/other/../" inside
 }
 
 var treeDirs = []string{"", "", "a/", "a/b/", "vendor/", "vendor/x/", "vendor/x/y/", "pkg/vendor/", "pkg/vendor/z/", "pkg/vendor/z/w/", "vendor/vendor/", "sub/", "sub/deep/", "sub/vendor/q/", "sub2/", "sub2/inner/", "nest/go.mod/", "internal/", "é/", "x y/", "weird[1]/",
@@ -272,6 +273,9 @@ func genDir(t *rapid.T) dirCase {
 		idx[i] = i
 	}
 	c.Shuffle = rapid.Permutation(idx).Draw(t, "shuffle")
+	if gen.Chance(t, 25, "spelling") {
+		c.Spelling = 1 + gen.Uniform(t, 4, "spellingkind")
+	}
 	return c
 }
 
@@ -371,6 +375,20 @@ func checkDir(c dirCase) pbt.Result {
 	defer os.RemoveAll(tmp)
 	root := filepath.Join(tmp, "tree")
 	os.Mkdir(root, 0o755)
+	// the same directory, named the way a caller might (a path from a flag or an environment variable is not clean)
+	rootArg := root
+	sep := string(filepath.Separator)
+	switch c.Spelling {
+	case 1:
+		rootArg = root + sep
+	case 2:
+		rootArg = tmp + sep + "." + sep + "tree"
+	case 3:
+		rootArg = tmp + sep + sep + "tree"
+	case 4:
+		os.Mkdir(filepath.Join(tmp, "other"), 0o755)
+		rootArg = tmp + sep + "other" + sep + ".." + sep + "tree"
+	}
 	levels := 0
 	for _, f := range c.Files {
 		p := filepath.Join(root, filepath.FromSlash(f.Name))
@@ -406,7 +424,7 @@ func checkDir(c dirCase) pbt.Result {
 		return out
 	}
 	var fromDir, fromList, fromShuffled bytes.Buffer
-	errDir := modzip.CreateFromDir(&fromDir, m, root)
+	errDir := modzip.CreateFromDir(&fromDir, m, rootArg)
 	errList := modzip.Create(&fromList, m, toFiles(listed))
 	// shuffled listing
 	byName := map[string]diskFile{}
@@ -462,7 +480,7 @@ func checkDir(c dirCase) pbt.Result {
 		}
 	}
 	// CheckDir vs CheckFiles on the files of the directory
-	cd, errCD := modzip.CheckDir(root)
+	cd, errCD := modzip.CheckDir(rootArg)
 	cl, errCL := modzip.CheckFiles(toFiles(listed))
 	rel := func(paths []string) []string {
 		var o []string
